@@ -74,10 +74,14 @@ def _codec_key(alg, kind, v):
         return "%s-%s-panic-%s" % (alg, v["k"], cls)
     if v["k"] == "enc":
         return "%s-encode-%s-%s" % (alg, "error" if kind == "encode-error" else "not-decodable", "empty" if not v["body"] else cls)
-    if kind == "corrupt-stream-accepted":
+    if kind.startswith("corrupt-stream-accepted"):
+        reason = kind.split(":", 1)[1]
         if alg == "lz4" and _declared_lz4(v["stream"]) != len(v["out"]):
             return "lz4-decode-corrupt-accepted-declared-length-not-checked"
-        return "%s-decode-corrupt-accepted-%s" % (alg, cls)
+        if cls == "truncated-in-match-length":
+            return "lz4-decode-corrupt-accepted-truncated-in-match-length"
+        # the output has the declared length: the decoder itself took a structurally invalid block
+        return "%s-decode-corrupt-accepted-%s" % (alg, reason)
     return "%s-decode-%s-%s" % (alg, kind, cls)
 
 
@@ -99,7 +103,7 @@ def _select(ctx, vecs):
     for v in vecs:
         cls = v.get("cls", "")
         always = v["panic"] or v["k"] == "enc" or cls in ("real-encoder-output", "gen:assembled", "gen:offset-beyond-output",
-                                                                 "gen:truncated-in-match-length")
+                                                                 "gen:truncated-in-match-length", "gen:offset-zero")
         if v["k"] == "enc" and len(v["body"]) > 1100 and (v["id"] + ctx.seed) % 3 != 0 and not v["panic"]:
             always = False      # bodies above 1 KiB: a third per run (the TLA+ decoders work byte by byte)
         if cls == "real-encoder-output" and len(v["out"]) > 1100 and (v["id"] + 1 + ctx.seed) % 3 != 0:
@@ -240,14 +244,14 @@ def run(ctx):
             return v["flags"] % 2 == 1
         return v["flag"]
     allv = [v for k in vec for v in vec[k]]
-    distinct = {json.dumps([v["k"], v.get("alg"), v.get("enc") or v.get("stream") or v.get("wire") or v.get("body")]) for v in allv if nontrivial(v)}
+    distinct = {json.dumps([v["k"], v.get("alg"), v.get("enc") or v.get("stream") or v.get("wire") or v.get("body")]) for v in chosen if nontrivial(v)}
     ops = sorted({v["op"] for v in vec["wire"]})
     enc_s = next((v for v in vec["lz4"] if v["k"] == "enc" and 20 < len(v["body"]) < 40 and len(v["enc"]) < len(v["body"])), vec["lz4"][0])
     dec_s = next((v for v in vec["snappy"] if v.get("cls") == "gen:assembled" and 8 < len(v["stream"]) < 30), vec["snappy"][0])
     wire_s = next((v for v in vec["wire"] if v["flags"] % 2 == 1 and v["op"] == 10), vec["wire"][0])
     ctx.cov = dict(
         evaluations=judged, distinct_nontrivial=len(distinct),
-        rule="distinct (kind, codec, compressed bytes) among: encoder outputs shorter than their input, decoder inputs longer than 5 "
+        rule="distinct (kind, codec, compressed bytes) among the vectors judged by TLC: encoder outputs shorter than their input, decoder inputs longer than 5 "
              "bytes, request frames with the compression flag set, flagged responses",
         executed_in_go=len(allv), judged_by_tlc=judged, executed_not_judged_quick_sample=unjudged, undecided_by_reference=undecided,
         states=states, transitions=trans,
